@@ -118,6 +118,19 @@ def _tmpdir():
         d = tempfile.mkdtemp(prefix='tsim-w%d-' % pid, dir=os.environ.get('TSIM_TMPROOT') or None)
         _TMP.clear()
         _TMP[pid] = d
+        # The process' working directory holds *other* files under the names the configurations use for their
+        # workflows (a path in a configuration is relative to the configuration file, not to the working directory)
+        try:
+            import json as _json
+            import networkx as _nx
+            for i_ in range(40):
+                g_ = _nx.DiGraph()
+                g_.add_node(0, comp=7)
+                with open(os.path.join(d, 'wf%d.json' % i_), 'w') as fp_:
+                    _json.dump({'header': {'decoy': True}, 'graph': _nx.node_link_data(g_)}, fp_)
+            os.chdir(d)
+        except Exception:
+            pass
         import atexit
         atexit.register(lambda p=d, me=pid: os.getpid() == me and shutil.rmtree(p, ignore_errors=True))
     return d
